@@ -305,6 +305,19 @@ impl BloomFilter {
     }
 }
 
+/// Verification hooks (compiled only with `--cfg inputlayer_verif`).
+#[cfg(inputlayer_verif)]
+impl BloomFilter {
+    /// The two base hashes `insert`/`might_contain` use for `value`.
+    pub fn verif_hash_pair<T: Hash>(&self, value: &T) -> (u64, u64) {
+        self.hash_pair(value)
+    }
+    /// The raw bit array.
+    pub fn verif_words(&self) -> &[u64] {
+        &self.bits
+    }
+}
+
 /// Builder for creating Bloom filters with fluent API.
 ///
 /// # Example
